@@ -1,5 +1,5 @@
 """C01 - flatten / unflatten round trip."""
-import random
+import json, random
 from harness.checks import treefam as F
 
 
@@ -20,6 +20,14 @@ def main(run):
         if F.nontrivial_tree(t):
             run.nontrivial.add(F.tree_key(t))
     run.evaluations += F.drive_and_judge(run, 's2c', items, ['roundtrip'])
+    # containers reached through a construction history (storage order != logical order)
+    hitems = F.hist_phase(run, 3 if quick else 5)
+    hitems += F.random_hist_items(run.seed, 400 if quick else 6000)
+    for i, it in enumerate(hitems):
+        it['cfgs'] = F.rotate_cfgs(i, rng, 1 if quick else 3)
+        run.nontrivial.add(json.dumps(it['hist']))
+    run.extra['history_built_containers'] = len(hitems)
+    run.evaluations += F.drive_and_judge(run, 'hist', hitems, ['roundtrip'])
     # code -> spec: random trees far beyond the TLC bound
     rt = F.random_trees(run.seed, 2000 if quick else 30000)
     items = [{'t': t, 'cfgs': F.rotate_cfgs(i, rng, 2 if quick else 4)} for i, t in enumerate(rt)]
